@@ -186,7 +186,7 @@ func metaChild(r *Run, pid string, env []string, pkgs []c12Pkg, test string, rep
 	for _, pk := range pkgs {
 		if pk.Test == test && replay == nil {
 			for _, e := range pk.Env {
-				if r.Thorough() && strings.HasPrefix(e, "VERIF_SCALE=") {
+				if (r.Thorough() || os.Getenv("VERIF_SEARCH") != "") && strings.HasPrefix(e, "VERIF_SCALE=") {
 					f, _ := strconv.ParseFloat(strings.TrimPrefix(e, "VERIF_SCALE="), 64)
 					e = fmt.Sprintf("VERIF_SCALE=%g", f*6)
 				}
